@@ -176,12 +176,8 @@ theorem numFromValue_returns (sp : IntSpec) (inj : Int → α) (l : Lit) : (numF
 
 theorem numElem_returns (sp : IntSpec) (inj : Int → α) (e : Expr) : (numElem sp inj e).Returns := by
   unfold numElem
-  simp only []
   split
   · exact numFromValue_returns sp inj _
-  · split
-    · exact numFromValue_returns sp inj _
-    · exact Outcome.returns_err _
   · exact Outcome.returns_err _
 
 theorem numArrayFromExpr_returns (sp : IntSpec) (parseArr : String → Option Expr) (inj : Int → α)
@@ -230,9 +226,19 @@ theorem pathList_np (tok : String → α) (injL : List α → α) : (pathListHoo
   constructor <;> intro f hf <;> simp [pathListHooks] at hf
   subst hf; intro items; exact (pathListFromList_returns _ items).map _
 
+theorem callableFromExpr_returns (tok : String → α) : (e : Expr) → (callableFromExpr tok e).Returns
+  | .group g _ => by simp only [callableFromExpr]; exact callableFromExpr_returns tok g
+  | .other k t s => by
+      unfold callableFromExpr
+      split <;> first | exact Outcome.returns_ok _ | exact Outcome.returns_err _ | simp_all
+  | .path _ _ => by simp only [callableFromExpr]; exact Outcome.returns_ok _
+  | .qpath _ _ _ => by simp only [callableFromExpr]; exact Outcome.returns_ok _
+  | .lit _ => by simp only [callableFromExpr]; exact Outcome.returns_err _
+  | .array _ _ _ => by simp only [callableFromExpr]; exact Outcome.returns_err _
+
 theorem callable_np (tok : String → α) : (callableHooks tok).NP := by
   constructor <;> intro f hf <;> simp [callableHooks] at hf
-  subst hf; intro e; simp only []; returns_auto
+  subst hf; exact callableFromExpr_returns tok
 
 /-! ### the C15 probe -/
 
